@@ -246,22 +246,8 @@ var genScenarios = map[string]func(g *Gen) []scriptStep{
 		return append(s, pullStep(sS0, 10), opStep(&Op{Kind: "Job", Job: "DeadLetterSweep", MaxN: 100}))
 	},
 	// an ordered subscription on the dead-letter topic receiving same-key forwards (C05, C06)
-	"dl-ordered-target": func(g *Gen) []scriptStep {
-		s := []scriptStep{
-			opStep(&Op{Kind: "CreateTopic", Name: sT0}), opStep(&Op{Kind: "CreateTopic", Name: sT1}),
-			subStep(&SubReq{Name: sS0, Topic: sT0, DL: dl(sT1, 1), Retry: retry(time.Second), Ordered: g.chance(0.5)}),
-			subStep(&SubReq{Name: sS1, Topic: sT1, Ordered: true}),
-			pubStep(sT0, "k1", "k1", "k2"), pubStep(sT0, "k1"),
-			pullStep(sS0, 10), pastLeases(sS0),
-		}
-		if g.chance(0.5) {
-			s = append(s, pullStep(sS0, 10), pastLeases(sS0), pullStep(sS0, 10))
-		} else {
-			s = append(s, opStep(&Op{Kind: "Job", Job: "DeadLetterSweep", MaxN: 100}), pullStep(sS0, 10), pastLeases(sS0),
-				opStep(&Op{Kind: "Job", Job: "DeadLetterSweep", MaxN: 100}))
-		}
-		return append(s, pullStep(sS1, int32(1+g.r.Intn(3))), ackLeased(sS1, "Ack", 0, true), pullStep(sS1, 10))
-	},
+	"dl-ordered-target": func(g *Gen) []scriptStep { return dlOrderedTarget(g, true, false) },
+	"dl-ordered-sweep":  func(g *Gen) []scriptStep { return dlOrderedTarget(g, false, true) },
 	// filtered subscriptions on the dead-letter topic, messages with attributes (C06, C07, C02):
 	// the forward must route by the message's own attributes, with the target's own retention
 	"dl-filtered-target": func(g *Gen) []scriptStep {
@@ -795,7 +781,7 @@ var genScenarios = map[string]func(g *Gen) []scriptStep{
 	},
 }
 
-var scenarioNames = []string{"ordered-replay", "ordered-prune", "snapshot-sibling-acks", "retry-replaced", "dl-then-prune-messages", "prune-expired-minage", "nack-mixed-attempts", "nack-after-ack-dl", "dl-shared-target", "dl-self-loop", "filter-literals", "ttl-raised", "prune-topics-batch-one", "dl-deleted-topic", "dl-ordered-target", "dl-filtered-target", "snapshot-bystander", "snapshot-bystander-rev", "seek-revive-late", "idle-expired-live", "filter-replaced", "ordered-chain", "lease-changes", "ack-mixed-stale", "nack-cross-subs", "recreated-twice", "seek-delayed"}
+var scenarioNames = []string{"ordered-replay", "ordered-prune", "snapshot-sibling-acks", "retry-replaced", "dl-then-prune-messages", "prune-expired-minage", "nack-mixed-attempts", "nack-after-ack-dl", "dl-shared-target", "dl-self-loop", "filter-literals", "ttl-raised", "prune-topics-batch-one", "dl-deleted-topic", "dl-ordered-target", "dl-ordered-sweep", "dl-filtered-target", "snapshot-bystander", "snapshot-bystander-rev", "seek-revive-late", "idle-expired-live", "filter-replaced", "ordered-chain", "lease-changes", "ack-mixed-stale", "nack-cross-subs", "recreated-twice", "seek-delayed"}
 
 // scenariosFor lists the templates a generator profile may start with
 func scenariosFor(profile string) []string {
@@ -810,7 +796,7 @@ func scenariosFor(profile string) []string {
 		return []string{"filter-replaced", "idle-expired-live", "config-reset-each-field", "filter-literals", "ttl-raised", "seek-retention", "retry-replaced"}
 	case "c15":
 		// no reviving seeks in the paired histories
-		return []string{"ordered-prune", "dl-then-prune-messages", "prune-expired-minage", "prune-topics-batch-one", "dl-shared-target", "dl-self-loop", "dl-deleted-topic", "dl-ordered-target", "dl-filtered-target", "idle-expired-live", "filter-replaced"}
+		return []string{"ordered-prune", "dl-then-prune-messages", "prune-expired-minage", "prune-topics-batch-one", "dl-shared-target", "dl-self-loop", "dl-deleted-topic", "dl-ordered-target", "dl-ordered-sweep", "dl-filtered-target", "idle-expired-live", "filter-replaced"}
 	}
 	return nil
 }
@@ -863,4 +849,23 @@ func snapshotBystander(g *Gen, seekWho string) []scriptStep {
 		},
 		pullStep(sS0, 10), pullStep(sS1, 10),
 	}
+}
+
+// same-key messages dead-lettered into an ORDERED subscription of the dead-letter topic: one at a
+// time by pulls on an ordered source, or in batches by the sweep on an unordered source (C05, C06)
+func dlOrderedTarget(g *Gen, srcOrdered, bySweep bool) []scriptStep {
+	s := []scriptStep{
+		opStep(&Op{Kind: "CreateTopic", Name: sT0}), opStep(&Op{Kind: "CreateTopic", Name: sT1}),
+		subStep(&SubReq{Name: sS0, Topic: sT0, DL: dl(sT1, 1), Retry: retry(time.Second), Ordered: srcOrdered}),
+		subStep(&SubReq{Name: sS1, Topic: sT1, Ordered: true}),
+		pubStep(sT0, "k1", "k1", "k2"), pubStep(sT0, "k1"),
+		pullStep(sS0, 10), pastLeases(sS0),
+	}
+	if !bySweep {
+		s = append(s, pullStep(sS0, 10), pastLeases(sS0), pullStep(sS0, 10), pastLeases(sS0), pullStep(sS0, 10))
+	} else {
+		s = append(s, opStep(&Op{Kind: "Job", Job: "DeadLetterSweep", MaxN: 1}), opStep(&Op{Kind: "Job", Job: "DeadLetterSweep", MaxN: 100}), pullStep(sS0, 10), pastLeases(sS0),
+			opStep(&Op{Kind: "Job", Job: "DeadLetterSweep", MaxN: 100}))
+	}
+	return append(s, pullStep(sS1, int32(1+g.r.Intn(3))), ackLeased(sS1, "Ack", 0, true), pullStep(sS1, 10))
 }
